@@ -50,7 +50,7 @@ void rf_column(ref_arena* a, const rfile_t* f, int ci, int rg, ref_coldata* o) {
     o->def = ref_alloc(a, sizeof(int16_t) * (size_t)(N + 1)); o->rep = ref_alloc(a, sizeof(int16_t) * (size_t)(N + 1));
     o->fixed = ref_alloc(a, (size_t)(w ? w : 1) * (size_t)(N + 1)); o->strs = ref_alloc(a, sizeof(ref_str) * (size_t)(N + 1));
     for (int r = 0; r < N; r++) {
-        bool null = f->col[ci].opt && ((f->mask[ci] >> r) & 1); o->def[r] = f->col[ci].opt ? (null ? 0 : 1) : 0; if (null) continue;
+        bool null = f->col[ci].opt && ((f->mask[ci] >> (r & 63)) & 1); o->def[r] = f->col[ci].opt ? (null ? 0 : 1) : 0; if (null) continue;
         ref_str s = { 0, 0 }; rf_value(o->ptype, o->type_length, ci, r + rg * N, f->pattern, o->fixed + o->nvalues * (w ? w : 1), &s);
         if (o->ptype == PT_BYTE_ARRAY) { uint8_t* cp = ref_alloc(a, s.n + 1); memcpy(cp, s.p, s.n); o->strs[o->nvalues].p = cp; o->strs[o->nvalues].n = s.n; }
         o->nvalues++;
@@ -74,7 +74,7 @@ int rf_build(ref_arena* a, const rfile_t* f, ref_buf* img, ref_pageinfo* pages, 
     ref_chunk_layout* L = ref_alloc(a, sizeof(ref_chunk_layout) * (size_t)(nrg * f->ncols)); int64_t* rows = ref_alloc(a, sizeof(int64_t) * (size_t)nrg);
     for (int g = 0; g < nrg; g++) { rows[g] = f->N;
         for (int c = 0; c < f->ncols; c++) { rf_column(a, f, c, g, &cols[g * f->ncols + c]); ref_chunk_layout* l = &L[g * f->ncols + c];
-            l->codec = f->codec; l->value_encoding = f->enc[c]; l->npages = f->npages[c]; memcpy(l->page_levels, f->page_levels[c], sizeof l->page_levels); l->level_form = f->level_form; l->index_form = f->index_form; l->index_bw_extra = f->index_bw_extra;
+            l->codec = f->codec; l->value_encoding = f->enc[c]; l->npages = f->npages[c]; memcpy(l->page_levels, f->page_levels[c], sizeof l->page_levels); l->uniform_page_levels = f->uniform_page[c]; l->level_form = f->level_form; l->index_form = f->index_form; l->index_bw_extra = f->index_bw_extra;
             if (c == 0) { int64_t r0 = 0; for (int64_t i = 0; i < cols[g * f->ncols].nlevels; i++) if (cols[g * f->ncols].max_rep == 0 || cols[g * f->ncols].rep[i] == 0) r0++; rows[g] = r0; }
             l->chunk_stats = f->chunk_stats[c]; l->page_stats = f->page_stats[c]; l->crc = f->crc; l->dict_offset_present = f->dict_offset_present; l->data_offset_at_dict = f->data_offset_at_dict; l->v2 = f->v2; l->level_encoding = f->level_encoding; } }
     ref_write_req rq; memset(&rq, 0, sizeof rq); rq.schema = sc; rq.nschema = ns; rq.nleaves = f->ncols; rq.nrg = nrg; rq.rg_rows = rows; rq.cols = cols; rq.layouts = L; rq.fl = f->fl;
@@ -87,7 +87,7 @@ const char* rf_desc(const rfile_t* f) {
     for (int c = 0; c < f->ncols; c++) { k += snprintf(o + k, 600 - (size_t)k, "%s%s%s/e%d/m0x%llx/x%d", c ? "," : "", T[f->col[c].ptype], f->col[c].opt ? "?" : "", f->enc[c], (unsigned long long)f->mask[c], f->ctx[c]);
         if (f->defs[c]) { k += snprintf(o + k, 600 - (size_t)k, "/L"); for (int r = 0; r < f->N && k < 560; r++) k += snprintf(o + k, 600 - (size_t)k, "%d.%d,", f->reps[c] ? f->reps[c][r] : 0, f->defs[c][r]); }
         k += snprintf(o + k, 600 - (size_t)k, "/p");
-        if (!f->npages[c]) k += snprintf(o + k, 600 - (size_t)k, "1"); for (int p = 0; p < f->npages[c]; p++) k += snprintf(o + k, 600 - (size_t)k, "%s%d", p ? "+" : "", f->page_levels[c][p]); }
+        if (f->uniform_page[c]) k += snprintf(o + k, 600 - (size_t)k, "every%d", f->uniform_page[c]); else if (!f->npages[c]) k += snprintf(o + k, 600 - (size_t)k, "1"); for (int p = 0; p < f->npages[c] && !f->uniform_page[c]; p++) k += snprintf(o + k, 600 - (size_t)k, "%s%d", p ? "+" : "", f->page_levels[c][p]); }
     snprintf(o + k, 600 - (size_t)k, ";n=%d;rg=%d;codec=%d;crc=%d;lf=%d;if=%d;bwx=%d;pat=%d;dofs=%d%d;v2=%d;lenc=%d;tf=%d%d;unk=%d%s", f->N, f->nrg > 0 ? f->nrg : f->nrg < 0 ? 0 : 1, f->codec, f->crc, f->level_form, f->index_form, f->index_bw_extra, f->pattern,
              f->dict_offset_present, f->data_offset_at_dict, f->v2, f->level_encoding, f->fl.tform.long_field_headers, f->fl.tform.long_list_headers, f->fl.unknown_kind, f->fl.unknown_at_end ? "e" : "");
     return o;
